@@ -669,6 +669,17 @@ def h_zero_dim(ch):
     return model(g)
 
 
+@_h("h_mod", {}, [dict(x=i64(7, -7, 7, -7), y=i64(3, 3, -3, -3)), dict(x=i64(0, 5, -1, 9), y=i64(2, -5, 4, 1)),
+                  dict(x=i64(-8, 8, 1, -1), y=i64(5, -5, 7, 7))], tags=("ops",))
+def h_mod(ch):
+    """An op that also exists as a Python operator but carries a semantic attribute (Mod fmod=1: C remainder)."""
+    nodes = [oh.make_node("Mod", ["x", "y"], ["cm"], fmod=1), oh.make_node("Mod", ["x", "y"], ["fm"]),
+             oh.make_node("Abs", ["cm"], ["acm"]), oh.make_node("Sub", ["fm", "acm"], ["d"])]
+    g = oh.make_graph(nodes, "g_mod", [vi("x", TP.INT64, [4]), vi("y", TP.INT64, [4])],
+                      [vi("cm", TP.INT64, [4]), vi("fm", TP.INT64, [4]), vi("d", TP.INT64, [4])])
+    return model(g)
+
+
 @_h("h_names", {}, [dict(x=v, y=w) for v, w in zip(_X2, reversed(_X2))], tags=("names",))
 def h_names(ch):
     """Values already carrying alphabet names, so that one renaming deviation produces a clean-up collision."""
